@@ -28,6 +28,16 @@ pub struct ShortCircuit {
     pub gas_left_frac: u16,
 }
 
+/// F3b: the inspector ends the running frame itself by setting the instruction result in
+/// `step_end` (documented as allowed) after the `at_step`-th instruction of the transaction,
+/// if that instruction completed normally.
+#[derive(Clone, Debug, Default, Serialize, Deserialize, PartialEq)]
+pub struct ForceHalt {
+    pub at_step: u64,
+    /// "stop" | "revert" | "halt"
+    pub result: String,
+}
+
 #[derive(Clone, Debug, Default)]
 pub struct TxCtx {
     pub spec: Option<SpecId>,
@@ -246,6 +256,8 @@ pub struct Monitor {
     // ---- configuration (set by the harness before each transaction)
     pub ctx: TxCtx,
     pub short_circuits: Vec<ShortCircuit>,
+    pub force_halt: Option<ForceHalt>,
+    tx_steps: u64,
     pub check_frame_snapshots: bool,
     pub check_access: bool,
     pub check_memory: bool,
@@ -317,6 +329,8 @@ impl Monitor {
         self.ended = None;
         self.hook_no = 0;
         self.short_circuits = short_circuits;
+        self.force_halt = None;
+        self.tx_steps = 0;
         self.top_delegate_checked = false;
         self.top_gas = None;
         self.depth_leak = 0;
@@ -857,6 +871,7 @@ impl<DB: Database> Inspector<DB> for Monitor {
             return;
         };
         let res = interp.instruction_result;
+        let rec_opcode_is_log = (0xa0..=0xa4).contains(&rec.opcode);
         let js = &context.journaled_state;
         let spec = self.spec();
         let me = interp.contract.target_address;
@@ -884,6 +899,23 @@ impl<DB: Database> Inspector<DB> for Monitor {
             }
         }
         self.step_end_access(rec, interp, js, spec, me, res, completed);
+        // ---- F3b: end the frame from here
+        self.tx_steps += 1;
+        if res == InstructionResult::Continue {
+            if let Some(fh) = &self.force_halt {
+                if fh.at_step + 1 == self.tx_steps {
+                    interp.instruction_result = match fh.result.as_str() {
+                        "stop" => InstructionResult::Stop,
+                        "revert" => InstructionResult::Revert,
+                        _ => InstructionResult::OutOfGas,
+                    };
+                    self.inc("fault.F3_frame_halted_from_step_end");
+                    if rec_opcode_is_log {
+                        self.inc("probe.forced_halt_on_log");
+                    }
+                }
+            }
+        }
     }
 
     fn log(&mut self, _interp: &mut Interpreter, context: &mut EvmContext<DB>, log: &Log) {
